@@ -43,7 +43,7 @@ class RKAdaptiveStepSolver(object):
         # the functions below must not refer to self, otherwise the solver
         # (and the tensors it holds) is kept alive by a reference cycle
         yshape = y0.shape
-        direction = ts[1] - ts[0]
+        direction = ts[1] - ts[0] if len(ts) > 1 else 1
         if direction < 0:
             self.ts = -ts
             self.func = lambda t, y: -fcn(-t, y.reshape(yshape), *params).reshape(-1)
@@ -62,6 +62,10 @@ class RKAdaptiveStepSolver(object):
         self.E = self.E.to(self.dtype).to(self.device)
 
     def solve(self):
+        if len(self.ts) == 1:
+            # only the initial time is requested
+            return self.y0.reshape(1, *self.yshape)
+
         t0 = self.ts[0]
         ts = self.ts
         f0 = self.func(t0, self.y0)
